@@ -220,6 +220,17 @@ def run_driver_parallel(exe, lines, nproc=None, timeout=1800):
 
 
 # ------------------------------------------------------------------ helpers
+LUA_VERSIONS = [8, 0, 16, 19, 33, 41]
+
+
+def lua_version(src):
+    """The cart data version a Lua text is loaded under: a function of the text, so that a replay repeats it.  Nothing
+    in the Lua stack may depend on it (lexing, parsing, token counts, writers are the same for every version)"""
+    if isinstance(src, (list, tuple)):
+        src = b''.join(bytes(x) for x in src)
+    return LUA_VERSIONS[(sum(src) + len(src)) % len(LUA_VERSIONS)]
+
+
 def hx(b):
     b = bytes(b)
     return b.hex() if b else '-'
